@@ -228,6 +228,12 @@ func (f *fsm) dialPeer() {
 				}
 			}
 		}
+		if verifEnabled && verifDialHook != nil {
+			conn, err := verifDialHook(ctx, f.peer.options.localAddress,
+				f.peer.config.RemoteAddress, f.peer.options.port)
+			dialResultCh <- &dialResult{conn: conn, err: err}
+			return
+		}
 		dialer := &net.Dialer{
 			LocalAddr: laddr,
 			Control:   f.peer.options.dialerControlFn,
